@@ -32,7 +32,7 @@ fn facts(case: &Case, run: &Run) -> Result<Facts, Fail> {
             if let Event::Store { tid, op, addr, idx, .. } = e {
                 if *addr == seq {
                     let t = match case.programs[*tid][*op] {
-                        Op::Update(t) | Op::TryUpdate(t) => t,
+                        Op::Update(t) | Op::TryUpdate(t) | Op::UpdateUnwinding(t) => t,
                         Op::UpdateBad(t) | Op::TryUpdateBad(t) => {
                             return Err(Fail::new("commit-by-invalid-update", format!("thread {tid} committed base time {t} with a voucher that does not match it")))
                         }
@@ -64,7 +64,7 @@ pub fn check_run(case: &Case, run: &Run) -> Result<(bool, bool), Fail> {
     let mut valid: Vec<(u64, u64)> = vec![(0, voucher_bits(VOUCH.vouch(0)))];
     for p in &case.programs {
         for op in p {
-            if let Op::Update(t) | Op::TryUpdate(t) = op {
+            if let Op::Update(t) | Op::TryUpdate(t) | Op::UpdateUnwinding(t) = op {
                 valid.push((*t, voucher_bits(VOUCH.vouch(*t))));
             }
             // (the pairs of UpdateBad / TryUpdateBad are never valid)
@@ -96,7 +96,7 @@ pub fn check_run(case: &Case, run: &Run) -> Result<(bool, bool), Fail> {
             *poisoned = true;
         }
         match program_op {
-            Op::Update(t) | Op::TryUpdate(t) => {
+            Op::Update(t) | Op::TryUpdate(t) | Op::UpdateUnwinding(t) => {
                 let accepted = t >= *current;
                 if accepted {
                     *current = t;
@@ -218,7 +218,7 @@ pub fn check_run(case: &Case, run: &Run) -> Result<(bool, bool), Fail> {
                         }
                     }
                 }
-                (Op::Update(t), OpResult::Updated) => {
+                (Op::Update(t) | Op::UpdateUnwinding(t), OpResult::Updated) => {
                     // An accepted own update happens-before this thread's later snapshots.
                     let accepted = run
                         .trace
@@ -290,6 +290,7 @@ fn op() -> impl Strategy<Value = Op> {
         4 => prop_oneof![12 => 1u64..7, 1 => Just(0u64), 1 => Just(u64::MAX), 1 => remarkable()].prop_map(Op::TryUpdate),
         2 => Just(Op::Sequence),
         // Rejected updates (the writer panics while it holds the lock, which poisons it).
+        1 => (1u64..7).prop_map(Op::UpdateUnwinding),
         1 => (1u64..7).prop_map(Op::UpdateBad),
         1 => (1u64..7).prop_map(Op::TryUpdateBad),
     ]
@@ -386,7 +387,7 @@ fn replay(_ctx: &Ctx, _group: &str, case: &Value) -> CaseResult {
 pub fn def() -> PropDef {
     PropDef {
         id: "C13",
-        rule: "A case is (2..3 thread programs of 1..3 operations from snapshot / update(t) / try_update(t) / sequence with t from a small non-monotone set (plus 0, u64::MAX and the base times whose valid voucher is all zeroes / one / all ones / the top bit only), and (one operation in eleven) update / try_update with a voucher that does not match the base time, which the crate rejects by panicking inside the critical section - the lock is then poisoned and the next writer recovers; a schedule: a list of (thread choice, uninterrupted run length) segments; a list of reads-from choices). Each logical thread is an OS thread that only runs while it holds the harness's baton, handed over at every hooked atomic load/store and lock/try_lock/unlock (vouched_time verif_sync hook), so the generated schedule fully determines the interleaving; atomic operations execute against a view-based release/acquire memory model owned by the harness: a load may read any message at or above the thread's view of that location (the generated choice picks which), Acquire loads join the message's released view, Relaxed operations transfer nothing, lock/unlock are acquire/release - so the stale reads a weakened ordering would permit are generated even though the host is x86. Oracles: no panic (the crate's internal voucher check is its own tearing detector); every snapshot pair is the epoch pair or a pair passed to some update; per-thread snapshot base times never decrease (own accepted updates included); a snapshot's base time is >= that of every commit in the thread's view of the sequence word when it began (happens-before), and, in executions without any stale read, >= that of every commit completed before it began; replaying the critical sections in order through the monotone filter (a rejected pair changes nothing; the section after a panic is the poison recovery) predicts exactly the commit stores, every try_update return value, and the final pair and sequence number read after joining. writer-laps-reader biases towards long writer runs between a reader's loads; bounded-preemptions enumerates every schedule with <= 2 (3) preemptions for five fixed programs. Non-trivial: a case with a snapshot during which a commit store occurred, or in which a non-latest read was taken. Distinct: hash of the serialised case / by enumeration.",
+        rule: "A case is (2..3 thread programs of 1..3 operations from snapshot / update(t) / try_update(t) / sequence with t from a small non-monotone set (plus 0, u64::MAX and the base times whose valid voucher is all zeroes / one / all ones / the top bit only), and (one operation in eleven) update / try_update with a voucher that does not match the base time, which the crate rejects by panicking inside the critical section - the lock is then poisoned and the next writer recovers; and a valid update made from a destructor while the thread unwinds from an unrelated panic, which is an update like any other; a schedule: a list of (thread choice, uninterrupted run length) segments; a list of reads-from choices). Each logical thread is an OS thread that only runs while it holds the harness's baton, handed over at every hooked atomic load/store and lock/try_lock/unlock (vouched_time verif_sync hook), so the generated schedule fully determines the interleaving; atomic operations execute against a view-based release/acquire memory model owned by the harness: a load may read any message at or above the thread's view of that location (the generated choice picks which), Acquire loads join the message's released view, Relaxed operations transfer nothing, lock/unlock are acquire/release - so the stale reads a weakened ordering would permit are generated even though the host is x86. Oracles: no panic (the crate's internal voucher check is its own tearing detector); every snapshot pair is the epoch pair or a pair passed to some update; per-thread snapshot base times never decrease (own accepted updates included); a snapshot's base time is >= that of every commit in the thread's view of the sequence word when it began (happens-before), and, in executions without any stale read, >= that of every commit completed before it began; replaying the critical sections in order through the monotone filter (a rejected pair changes nothing; the section after a panic is the poison recovery) predicts exactly the commit stores, every try_update return value, and the final pair and sequence number read after joining. writer-laps-reader biases towards long writer runs between a reader's loads; bounded-preemptions enumerates every schedule with <= 2 (3) preemptions for five fixed programs. Non-trivial: a case with a snapshot during which a commit store occurred, or in which a non-latest read was taken. Distinct: hash of the serialised case / by enumeration.",
         assumptions: &[
             "the memory model is the promise-free release/acquire fragment: every execution it produces is allowed by the C++20/Rust model; load-buffering behaviours that need promises are not generated; SeqCst, if introduced, is executed as 'read latest + full view transfer'",
             "stores are appended at the end of the modification order (writers are serialised by the lock)",
